@@ -147,7 +147,10 @@ def run(scn):
     if unit == 'W_in':
         kw = {}
         if cfg.get('data_handler'): kw['data_handler'] = InH()
-        if cfg.get('alias_params_resolver'): kw['alias_params_resolver'] = lambda *a, **k: (sc['alias_params_resolver'](*a, **k), {})[1]
+        alias_text = 'alias'
+        if cfg.get('alias_params_resolver'):
+            alias_text = 'alias_{x}'
+            kw['alias_params_resolver'] = lambda *a, **k: (sc['alias_params_resolver'](*a, **k), {} if cfg.get('alias_format_fails') else {'x': 1})[1]
         fbk = cfg.get('fallback_aliases')
         if fbk == 'callable': kw['fallback_aliases'] = lambda *a, **k: (sc['fallback_aliases'](*a, **k), [])[1]
         elif fbk == 'list': kw['fallback_aliases'] = ['old_alias']
@@ -160,7 +163,7 @@ def run(scn):
             def execute(self, p):
                 call_and_observe(self.inp, p); return 0
 
-            @tr.intercept_input('alias', **kw)
+            @tr.intercept_input(alias_text, **kw)
             def inp(self, p):
                 return body(self, p)
         svc = Service()
